@@ -486,6 +486,7 @@ class PlanBuilder:
     def __init__(self, rng):
         self.rng = rng
         self.sliced = []  # roots cut by their sequence chunk
+        self.order_twins = []  # pairs of roots that differ only in the order of their children
         self.objects = {}
         self.infos = {}
         self.pools = {}
@@ -547,6 +548,23 @@ def _annotation_roots(pb, rng, size):
         n_vcs=0,
         gene_kw=dict(max_tx=1 + size),
     )
+    # tie twins: an isoform (feature) listed twice under another identifier, no explicit primary flag: the inferred primary
+    # child is then decided by list position alone, so anything that forgets the order of the children shows
+    for gene_ in coll["genes"]:
+        if rng.random() < 0.2:
+            tw = copy.deepcopy(rng.choice(gene_["transcripts"]))
+            tw["transcript_id"] = (tw.get("transcript_id") or "tx") + "_tie"
+            for t_ in gene_["transcripts"]:
+                t_["is_primary_tx"] = None
+            tw["is_primary_tx"] = None
+            gene_["transcripts"].insert(rng.randint(0, len(gene_["transcripts"])), tw)
+    for fc_ in coll["feature_collections"]:
+        if rng.random() < 0.2:
+            tw = copy.deepcopy(rng.choice(fc_["feature_intervals"]))
+            tw["feature_id"] = (tw.get("feature_id") or "f") + "_tie"
+            for f_ in fc_["feature_intervals"]:
+                f_["is_primary_feature"] = None
+            fc_["feature_intervals"].insert(rng.randint(0, len(fc_["feature_intervals"])), tw)
     g = coll["parent"]["genome"]
     L = len(g["seq"])
     # some coding transcripts get a real ORF, often with an alternative start codon: answers that depend on the
@@ -577,6 +595,19 @@ def _annotation_roots(pb, rng, size):
     rng.shuffle(roots)
     for kind, spec in roots[: rng.randint(1, 3 + size)]:
         names.append(pb.add_root(kind, spec))
+    # order twins: the same gene / feature collection with its children listed in another order, as a root of its own (so
+    # that its pristine twin is built in a process that never saw the first order): whatever is keyed by the SET of children
+    # while the answer depends on their ORDER (inferred primary child, iteration order, ties) shows
+    multi = [(k_, s_) for k_, s_ in roots if k_ in ("gene", "feature_collection") and len(s_.get("transcripts") or s_.get("feature_intervals") or []) >= 2]
+    if multi and rng.random() < 0.35:
+        k_, s_ = rng.choice(multi)
+        tw = copy.deepcopy(s_)
+        kids = tw["transcripts"] if k_ == "gene" else tw["feature_intervals"]
+        kids.reverse()
+        a_ = pb.add_root(k_, s_)
+        b_ = pb.add_root(k_, tw)
+        names += [a_, b_]
+        pb.order_twins.append((a_, b_))
     # a stand-alone CDS / transcript on a chunk whose window cuts it (frame bookkeeping across the cut is stateful code)
     coding = [t for gene in coll["genes"] for t in gene["transcripts"] if t.get("cds_starts")]
     if coding and rng.random() < 0.5:
@@ -956,6 +987,22 @@ def gen_plan(rng, check="C10", size=1, max_steps=60, known_avoid=()):
                     steps.append(st)
             if steps:
                 sessions.append(steps)
+    # order twins are asked the order-sensitive questions one after the other (either one first)
+    for pair in pb.order_twins:
+        pair = list(pair)
+        rng.shuffle(pair)
+        steps = []
+        for n in pair:
+            kind = pb.objects[n]["kind"]
+            qs = [x for x in ("primary_transcript", "get_primary_transcript", "get_primary_cds", "get_primary_protein", "primary_feature", "get_primary_feature",
+                              "iter_children", "children_guids", "get_merged_transcript", "get_merged_feature", "to_dict", "guid") if x in BY_NAME[kind]]
+            rng.shuffle(qs)
+            for x in qs[: rng.randint(2, 5)]:
+                st = pb.call_step(len(sessions), n, BY_NAME[kind][x], store_p=0.0)
+                if st:
+                    steps.append(st)
+        if steps:
+            sessions.append(steps)
     # two callers describe a child placed on "the same" location of near-colliding coordinate systems
     for pair in pb.collision_pairs:
         steps = []
